@@ -268,8 +268,23 @@ def main():
         print(f"TIMEOUT: {e}")
         rc = 2
     except Exception:  # noqa
-        traceback.print_exc()
+        tb = traceback.format_exc()
+        print(tb)
         rc = 2
+        # a monitor that cannot complete on the pinned tree is a defect of the harness (exit 2).  On a tree whose source is not the
+        # pinned one it means the changed code behaves in a way the monitor did not expect: the property is no longer shown to
+        # hold, which is reported as such (no failing input), with the harness exception as the replay.
+        try:
+            drift = source_drift()
+        except Exception:  # noqa
+            drift = []
+        if drift:
+            path = write_replay(ctx, {"property": ctx.prop, "kind": "obligation",
+                                      "what": "the check could not complete on this tree, whose source differs from the pinned one: the "
+                                              "correspondence run / monitor ended with an exception",
+                                      "source_files_differing_from_pinned": drift, "exception": tb[-3000:]})
+            print(f"VIOLATION property={ctx.prop} replay={path} no-failing-input-found")
+            rc = 1
     sys.exit(rc)
 
 
